@@ -5,7 +5,7 @@
 From Coq Require Import Arith List ZArith QArith Qcanon Reals.
 From GPV Require Import Base.LinAlg Base.Exec Base.Expr Models.C14_variational Models.C01_posterior
   Models.C04_fantasy Models.C17_constraints Proofs.C17_constraints Models.C07_psd Proofs.C07_psd Proofs.C07_more
-  Proofs.C07_gramform Base.Psd Proofs.C07_variational Proofs.C07_real.
+  Proofs.C07_gramform Base.Psd Proofs.C07_variational Proofs.C07_real Proofs.C07_policy.
 Import ListNotations.
 
 (* ---- Gram-type kernels are PSD for ALL inputs, sizes, dimensions and admissible parameters - *)
@@ -258,6 +258,56 @@ Theorem c07_more_data_variance_monotone :
     fle (post_cov_g (n + m) Kss (hstack n X Y) Binv i i) (post_cov_g n Kss X Ainv i i).
 Proof. intros K O. exact (@more_data_variance_monotone K O). Qed.
 Print Assumptions c07_more_data_variance_monotone.
+
+(* ---- covariances handed out under observation_nan_policy (exact_predictive_covar) ------------------
+   J = joint covariance of (observations y, test values f_star), i.e. prior + noise on the train block;
+   obs i = true iff observation i is present.  'fill' decouples the missing observations (train-train rows
+   and columns zeroed, diagonal kept, test-train columns zeroed): the result is PSD, below the prior, for
+   every n, t and every pattern of missing observations, any inverse of the decoupled train matrix. *)
+Theorem c07_fill_policy_posterior_psd :
+  forall (K : Fld) (O : OrdFld K) n t obs J Ainv,
+    symmetric (n + t) J -> PSD (n + t) J ->
+    is_inverse n (decouple obs (sub 0 0 J)) Ainv ->
+    PSD t (fill_post_cov n obs (sub n n J) (sub n 0 J) (sub 0 0 J) Ainv).
+Proof. intros K O. exact (@fill_posterior_psd K O). Qed.
+Print Assumptions c07_fill_policy_posterior_psd.
+
+Theorem c07_fill_policy_never_adds_uncertainty :
+  forall (K : Fld) (O : OrdFld K) n t obs Kss X A Ainv,
+    symmetric n A -> PSD n A -> is_inverse n (decouple obs A) Ainv ->
+    PSD t (msub Kss (fill_post_cov n obs Kss X A Ainv)).
+Proof. intros K O. exact (@fill_never_adds_uncertainty K O). Qed.
+Print Assumptions c07_fill_policy_never_adds_uncertainty.
+
+Theorem c07_fill_policy_variance_le_prior :
+  forall (K : Fld) (O : OrdFld K) n t obs Kss X A Ainv i,
+    symmetric n A -> PSD n A -> is_inverse n (decouple obs A) Ainv -> (i < t)%nat ->
+    fle (fill_post_cov n obs Kss X A Ainv i i) (Kss i i).
+Proof. intros K O. exact (@fill_variance_le_prior K O). Qed.
+Print Assumptions c07_fill_policy_variance_le_prior.
+
+(* the decoupling itself keeps a covariance a covariance *)
+Theorem c07_decouple_psd :
+  forall (K : Fld) (O : OrdFld K) n obs J,
+    symmetric n J -> PSD n J -> symmetric n (decouple obs J) /\ PSD n (decouple obs J).
+Proof. intros K O n obs J HS HP. split; [exact (@decouple_symmetric K n obs J HS)|exact (@decouple_psd K O n obs J HP)]. Qed.
+Print Assumptions c07_decouple_psd.
+
+(* 'mask' selects the k observed rows idx 0 .. idx (k-1) (any selection, repetitions allowed) *)
+Theorem c07_mask_policy_posterior_psd :
+  forall (K : Fld) (O : OrdFld K) n t k idx J Ainv,
+    (forall a, (a < k)%nat -> (idx a < n)%nat) ->
+    symmetric (n + t) J -> PSD (n + t) J ->
+    is_inverse k (gather idx idx (sub 0 0 J)) Ainv ->
+    PSD t (mask_post_cov k idx (sub n n J) (sub n 0 J) Ainv).
+Proof. intros K O. exact (@mask_posterior_psd K O). Qed.
+Print Assumptions c07_mask_policy_posterior_psd.
+
+Example ex_fill_policy_hyps :
+  symmetric 3 exJ3 /\ @PSD RF ROrd 3 exJ3 /\
+  is_inverse 2 (decouple exObs (sub 0 0 exJ3)) exAinv3 /\
+  fill_post_cov 2 exObs (sub 2 2 exJ3) (sub 2 0 exJ3) (sub 0 0 exJ3) exAinv3 0%nat 0%nat = (/ 2)%R.
+Proof. exact ex_fill_policy_hyps_holds. Qed.
 
 (* whitened variational predictive covariance K** + A^T (S - I) A (variational_strategy.py):
    PSD whenever S is and K** - A^T A is (the latter is a Schur complement of the prior) *)
